@@ -842,6 +842,34 @@ class Normaliser:
         return False
 
 
+    # ------------------------------------------------------------------ T18: `ALIAS = cache(f)` / `ALIAS = lru_cache(...)(f)` with f annotated -> bool|bytes|int|str:
+    # a cached scalar function is the function (no Node can be shared through it); node-returning wrappers are left for the fresh-hits rule
+    def scalar_cache_alias(self, module, fi):
+        from .effects import CACHE_DECORATORS
+        fn = fi.node
+        env = {}
+        for name, v in module.assigns.items():
+            if name in module.multi_assigned or not isinstance(v, ast.Call) or len(v.args) != 1 or v.keywords or not isinstance(v.args[0], ast.Name):
+                continue
+            dec = v.func.func if isinstance(v.func, ast.Call) else v.func
+            if self.prog.dotted(module, dec) not in CACHE_DECORATORS:
+                continue
+            tgt = module.funcs.get(v.args[0].id)
+            ret = getattr(getattr(tgt, "node", None), "returns", None)
+            if ret is not None and ast.unparse(ret) in ("bool", "bytes", "int", "str"):
+                env[name] = ast.Name(id=v.args[0].id, ctx=ast.Load())
+        if not env:
+            return False
+        local = {n.id for n in ast.walk(fn) if isinstance(n, ast.Name) and isinstance(n.ctx, ast.Store)} | {a.arg for a in fn.args.posonlyargs + fn.args.args + fn.args.kwonlyargs}
+        used = {n.id for n in ast.walk(fn) if isinstance(n, ast.Name) and isinstance(n.ctx, ast.Load) and n.id in env and n.id not in local}
+        if not used:
+            return False
+        for st in fn.body:
+            _Subst({k: env[k] for k in used}).visit(st)
+        self.log.append(f"{fi.fq}: cached scalar functions {sorted(used)} read as the functions they wrap")
+        return True
+
+
 def normalise_program(prog, rounds=4):
     nz = Normaliser(prog)
     for _ in range(rounds):
@@ -853,7 +881,7 @@ def normalise_program(prog, rounds=4):
                 c = False
                 for step in (lambda: nz.inline_expr_calls(m, fi), lambda: nz.inline_stmt_calls(m, fi), lambda: nz.while_true(fi), lambda: nz.aliases(fi),
                              lambda: nz.moving_alias(fi), lambda: nz.continue_to_else(fi), lambda: nz.pure_temps(fi), lambda: nz.rematerialise(fi),
-                             lambda: nz.early_alias(fi), lambda: nz.attr_snapshot(fi), lambda: nz.flip_negated_arm(fi), lambda: nz.field_temps(fi), lambda: nz.private_constants(m, fi), lambda: nz.split_drop_last(fi), lambda: nz.rotate_loop(fi), lambda: nz.canonical_forms(fi)):
+                             lambda: nz.early_alias(fi), lambda: nz.attr_snapshot(fi), lambda: nz.flip_negated_arm(fi), lambda: nz.field_temps(fi), lambda: nz.private_constants(m, fi), lambda: nz.scalar_cache_alias(m, fi), lambda: nz.split_drop_last(fi), lambda: nz.rotate_loop(fi), lambda: nz.canonical_forms(fi)):
                     try:
                         c = step() or c
                     except (AttributeError, TypeError, ValueError, KeyError, IndexError, RecursionError) as e:   # an unexpected tree shape: leave the function as it is
